@@ -350,7 +350,8 @@ class RegionBoundingBox:
         ixmax = min(self.ixmax, other.ixmax)
         iymin = max(self.iymin, other.iymin)
         iymax = min(self.iymax, other.iymax)
-        if ixmax < ixmin or iymax < iymin:
+        if ixmax <= ixmin or iymax <= iymin:
+            # no pixels in common (disjoint, touching or empty boxes)
             return None
 
         return RegionBoundingBox(ixmin=ixmin, ixmax=ixmax, iymin=iymin,
